@@ -228,6 +228,14 @@ func monitor(lines []string) []fail {
 	if !monitorable(toks) {
 		return nil
 	}
+	if len(st.reg.fromits) > 0 {
+		// the conservation clause of FromIterator is judged whatever the other clauses find (conserve.go)
+		return append(monitorClauses(c, toks, outs, st), fromitConservation(c, st)...)
+	}
+	return monitorClauses(c, toks, outs, st)
+}
+
+func monitorClauses(c caseInfo, toks []string, outs []string, st *implState) []fail {
 	switch c.mode {
 	case "xs":
 		return monitorXS(toks, outs[0])
